@@ -681,7 +681,8 @@ def gen_models(tier):
     cfg = "AsCore_Gen.cfg" if tier == "quick" else "AsCore_Gen4.cfg"
     cfgm = "AsCore_GenM.cfg" if tier == "quick" else "AsCore_GenM4.cfg"
     cfgs = "AsCore_GenS.cfg" if tier == "quick" else "AsCore_GenS4.cfg"
-    nsim = 40 if tier == "quick" else 2500
+    nsim = 40 if tier == "quick" else 800       # (the simulator evaluates EVERY successor of a state to pick one: 40
+                                                # statements per step in the family "all")
 
     def chain1():
         mc = tlc.run("AsCore_Gen", cfg, workers=4, timeout=1500, mem="6g")
@@ -692,7 +693,7 @@ def gen_models(tier):
         mcs = tlc.run("AsCore_Gen", cfgs, workers=4, timeout=1500, mem="6g")
         mcd = tlc.run("AsCore_Gen", "AsCore_GenD.cfg", workers=1, timeout=600, mem="2g")
         sim = tlc.run("AsCore_Gen", "AsCore_Sim.cfg", workers=2 if tier == "quick" else 4, simulate=nsim, depth=70,
-                      timeout=900, mem="4g")
+                      timeout=2400, mem="4g")
         return mcs, mcd, sim
     with cf.ThreadPoolExecutor(max_workers=2) as ex:
         f1, f2 = ex.submit(chain1), ex.submit(chain2)
